@@ -40,6 +40,12 @@ Check (C04.C04_written_file_query : forall two_pass fp o sizes autosql input f,
   bb_write_either two_pass fp o sizes autosql input = Ok f -> file_hyps o sizes input f ->
   exists i, read_info f = Ok i /\ forall infl c es s e, In (c, es) (bruns input) ->
     bb_interval infl f i c s e = Ok (filter (bkeep s e) es)).
+Check (C04.C04_written_file_narrow : forall two_pass fp o sizes autosql input f,
+  bb_write_either two_pass fp o sizes autosql input = Ok f -> file_hyps o sizes input f ->
+  exists i, read_info f = Ok i /\ forall infl c es s e s' e', In (c, es) (bruns input) ->
+    s' <= s -> e <= e' ->
+    exists wide, bb_interval infl f i c s' e' = Ok wide
+      /\ bb_interval infl f i c s e = Ok (filter (bkeep s e) wide)).
 
 (* ---- compressed files ---- *)
 From BT Require Import Model.BigWigWriteZ Model.BigBedWriteZ Proofs.BedFileZ Proofs.BedFileZThms.
